@@ -54,6 +54,16 @@ def realise(k, op, variant, reg):
         opts.append(('enumeration+both', {'type': 'enumeration', 'bytecode': {'size': cw, 'position': pos, 'value_dict': {'kx': cv, 'ky': 1}},
                                           'argument': dict(_arg_cfg(aw, al, aen), value_dict={'kx': av, 'ky': 2})}, 'kx'))
         opts.append(('indirect_numeric+code', {'type': 'indirect_numeric', 'bytecode': code, 'argument': _arg_cfg(aw, al, aen)}, f'[{num_text(av)}]'))
+        if cw >= 2:
+            # the operand code is a COMPOSITE: the register's code bits followed by the index operand's code bits
+            half = cw // 2
+            regcode = {'value': cv >> half, 'size': cw - half, 'position': pos}
+            idx = {f'ix{k}': {'type': 'numeric', 'bytecode': {'value': cv & ((1 << half) - 1), 'size': half}, 'argument': _arg_cfg(aw, al, aen)}}
+            opts.append(('indexed_register(composite code)', {'type': 'indexed_register', 'register': reg, 'bytecode': regcode, 'index_operands': idx},
+                         f'{reg} + {num_text(av)}'))
+            opts.append(('indirect_indexed_register(composite code)', {'type': 'indirect_indexed_register', 'register': reg, 'bytecode': dict(regcode),
+                                                                       'index_operands': {f'jx{k}': dict(list(idx.values())[0])}},
+                         f'[{reg} + {num_text(av)}]'))
     kind, cfg, text = opts[(variant + k) % len(opts)]
     return cfg, text, kind
 
